@@ -140,3 +140,158 @@ Proof.
   unfold Einsum.inner. apply NoDup_filter. unfold Einsum.all_ix. apply NoDup_nodup.
 Qed.
 End EE.
+
+(* ------------------------------------------------------------------ *)
+(* projected inner indices: the sum-over-ranges form IS einsum_spec of the network in which
+   only the projected indices are removed, at the assignment that fixes them *)
+Fixpoint apply_proj (L : list sinfo) (e : env) : env :=
+  match L with
+  | [] => e
+  | s :: L' => match si_proj s with
+               | Some p => apply_proj L' (upd e (si_ind s) p)
+               | None => apply_proj L' e
+               end
+  end.
+Definition nonproj_inds (L : list sinfo) : list ix :=
+  map si_ind (filter (fun s => match si_proj s with None => true | Some _ => false end) L).
+Definition proj_only (sl : list sinfo) : list sinfo :=
+  filter (fun s => match si_proj s with None => false | Some _ => true end) sl.
+
+Lemma apply_proj_upd_comm L : forall e j v, ~ In j (map si_ind L) ->
+  SumOver.env_eq (upd (apply_proj L e) j v) (apply_proj L (upd e j v)).
+Proof.
+  induction L as [|s L IH]; intros e j v Hn; [intros k; reflexivity|]. cbn [map In apply_proj] in *.
+  destruct (si_proj s) as [p|].
+  - intros k. rewrite (IH (upd e (si_ind s) p) j v) by tauto.
+    assert (Hcomm : SumOver.env_eq (upd (upd e (si_ind s) p) j v) (upd (upd e j v) (si_ind s) p)).
+    { intros x. unfold upd. destruct (Nat.eqb_spec x j), (Nat.eqb_spec x (si_ind s)); subst; try reflexivity. exfalso. apply Hn. left; reflexivity. }
+    revert k. change (SumOver.env_eq (apply_proj L (upd (upd e (si_ind s) p) j v)) (apply_proj L (upd (upd e j v) (si_ind s) p))).
+    clear -Hcomm. revert Hcomm. generalize (upd (upd e (si_ind s) p) j v) (upd (upd e j v) (si_ind s) p).
+    induction L as [|s' L IH]; intros e1 e2 He; [exact He|]. cbn [apply_proj]. destruct (si_proj s'); apply IH; [|exact He].
+    intros x. unfold upd. destruct (Nat.eqb x (si_ind s')); [reflexivity|apply He].
+  - apply IH. tauto.
+Qed.
+
+Section Proj.
+Variable n : net.
+Variable arr : nat -> Einsum.ptensor.
+Notation out := (output n).
+Notation dim := (Einsum.dim n).
+Notation allix := (Einsum.all_ix n).
+Notation PF := (Einsum.prodF n arr (seq 0 (NN n))).
+
+Definition innerR (rm : list ix) : list ix :=
+  filter (fun j => negb (memb j rm) && negb (memb j out)) allix.
+Definition ER (rm : list ix) (e : env) : Z := Einsum.sum_over dim (innerR rm) e PF.
+
+Lemma einsum_spec_ER sl e : Einsum.einsum_spec n sl arr e = ER (removed sl) e.
+Proof. reflexivity. Qed.
+
+Lemma NoDup_allix : NoDup allix.
+Proof. unfold Einsum.all_ix. apply NoDup_nodup. Qed.
+
+Lemma ER_respects rm : SumOver.respects (ER rm).
+Proof. intros e1 e2 He. unfold ER. apply SumOver.sum_over_env; [apply TreeEval.prodF_respects|exact He]. Qed.
+
+Definition drop (xs rm : list ix) : list ix := filter (fun j => negb (memb j xs)) rm.
+
+Lemma sum_keys_ER L : forall rm e,
+  NoDup (map si_ind L) ->
+  (forall s, In s L -> ~ In (si_ind s) out /\ In (si_ind s) rm /\
+                       (si_proj s = None -> si_size s = dim (si_ind s) /\ In (si_ind s) allix)) ->
+  sum_keys L e (ER rm) = ER (drop (nonproj_inds L) rm) (apply_proj L e).
+Proof.
+  induction L as [|s L IH]; intros rm e Hnd HL.
+  - cbn [sum_keys apply_proj]. unfold nonproj_inds. cbn [filter map].
+    assert (Hd : drop [] rm = rm) by (unfold drop; apply filter_all, forallb_forall; intros; reflexivity).
+    rewrite Hd. reflexivity.
+  - cbn [map] in Hnd. inversion Hnd as [|? ? Hn Hnd']; subst.
+    destruct (HL s (or_introl eq_refl)) as (Hout & Hrm & Hnp).
+    assert (HL' : forall s', In s' L -> ~ In (si_ind s') out /\ In (si_ind s') rm /\
+                   (si_proj s' = None -> si_size s' = dim (si_ind s') /\ In (si_ind s') allix))
+      by (intros s' Hs'; apply HL; right; exact Hs').
+    cbn [sum_keys apply_proj]. unfold sliced_range, nonproj_inds. cbn [filter].
+    destruct (si_proj s) as [p|] eqn:Ep.
+    + cbn [map]. rewrite zsum_cons. assert (Hz : zsum [] = 0%Z) by reflexivity. rewrite Hz, Z.add_0_r.
+      apply (IH rm (upd e (si_ind s) p) Hnd' HL').
+    + destruct (Hnp eq_refl) as [Hsz Hall]. cbn [map]. fold (nonproj_inds L).
+      set (j := si_ind s) in *. set (rm' := drop (nonproj_inds L) rm).
+      assert (Hjrm' : In j rm').
+      { unfold rm', drop. apply filter_In. split; [exact Hrm|]. apply negb_true_iff, memb_false.
+        intros H. apply Hn. unfold nonproj_inds in H. apply in_map_iff in H. destruct H as (s' & E0 & Hs'). apply filter_In in Hs'.
+        rewrite <- E0. apply in_map, Hs'. }
+      assert (HP : Permutation (innerR (drop (j :: nonproj_inds L) rm)) (j :: innerR rm')).
+      { apply NoDup_Permutation.
+        - unfold innerR. apply NoDup_filter, NoDup_allix.
+        - constructor; [|unfold innerR; apply NoDup_filter, NoDup_allix].
+          unfold innerR. rewrite filter_In. intros [_ Hb]. apply andb_prop in Hb. destruct Hb as [Hb _].
+          apply negb_true_iff, memb_false in Hb. contradiction.
+        - intros x. cbn [In]. unfold innerR. rewrite !filter_In, !andb_true_iff, !negb_true_iff, !memb_false.
+          unfold rm', drop. rewrite !filter_In, !negb_true_iff, !memb_false. cbn [In]. split.
+          + intros (Hx & Hnr & Hno). destruct (Nat.eq_dec j x) as [->|Hne]; [left; reflexivity|right].
+            split; [exact Hx|]. split; [|exact Hno]. intros [Hxr Hxn]. apply Hnr. split; [exact Hxr|]. intros [E0|H']; [contradiction|apply Hxn, H'].
+          + intros [<-|(Hx & Hnr & Hno)].
+            * split; [exact Hall|]. split; [|exact Hout]. intros [_ H']. apply H'. left; reflexivity.
+            * split; [exact Hx|]. split; [|exact Hno]. intros [Hxr Hxn]. apply Hnr. split; [exact Hxr|]. intros H'. apply Hxn. right; exact H'. }
+      unfold ER at 2.
+      rewrite (SumOver.sum_over_perm dim _ _ HP); [|unfold innerR; apply NoDup_filter, NoDup_allix|apply TreeEval.prodF_respects].
+      cbn [Einsum.sum_over]. rewrite Hsz, <- sumn_bridge, sumn_zsum. fold j. f_equal. apply map_ext. intros v.
+      rewrite (IH rm (upd e j v) Hnd' HL'). fold rm'. unfold ER.
+      apply SumOver.sum_over_env; [apply TreeEval.prodF_respects|].
+      intros k. symmetry. apply apply_proj_upd_comm. exact Hn.
+Qed.
+End Proj.
+
+Lemma memb_iff j a b : (In j a <-> In j b) -> memb j a = memb j b.
+Proof.
+  intros H. destruct (memb j a) eqn:Ea, (memb j b) eqn:Eb; try reflexivity.
+  - apply memb_In in Ea. apply H in Ea. apply memb_false in Eb. contradiction.
+  - apply memb_In in Eb. apply H in Eb. apply memb_false in Ea. contradiction.
+Qed.
+
+Lemma NoDup_map_inj_in' {A B} (f : A -> B) l x y : NoDup (map f l) -> In x l -> In y l -> f x = f y -> x = y.
+Proof.
+  induction l as [|a l IH]; intros Hnd Hx Hy E0; [destruct Hx|]. cbn [map] in Hnd. inversion Hnd as [|? ? Hn Hnd']; subst.
+  destruct Hx as [->|Hx], Hy as [->|Hy]; [reflexivity| | |apply IH; assumption].
+  - exfalso. apply Hn. rewrite E0. apply in_map, Hy.
+  - exfalso. apply Hn. rewrite <- E0. apply in_map, Hx.
+Qed.
+
+(* END TO END with projected inner indices: gathering the slices computed by C01's program
+   equals einsum_spec of the network in which ONLY the projected indices are removed, at the
+   assignment read off idx with every projected index fixed at its chosen value *)
+Theorem contract_sliced_is_einsum_proj n st arr ebase l r :
+  TreeEval.wf_net n -> TreeEval.full_tree n (Node l r) -> inv (output n) st ->
+  (forall s, In s (inns (ss_sliced st)) -> si_proj s = None ->
+     si_size s = Einsum.dim n (si_ind s) /\ In (si_ind s) (Einsum.all_ix n)) ->
+  forall idx, length idx = length (output n) ->
+  (forall jp, In jp (output_pos (output n) (ss_sliced st)) ->
+     nth (snd jp) idx 0 < length (sliced_range (si_of (ss_sliced st) (fst jp)))) ->
+  tget (gather_slices (ss_sliced st) (output n) (all_slices n st arr ebase l r)) idx =
+  Einsum.einsum_spec n (slr_of (proj_only (ss_sliced st))) arr
+    (apply_proj (inns (ss_sliced st)) (epairs (full_pairs (output n) st idx) ebase)).
+Proof.
+  intros WF FT Hinv Hnp idx Hidx Hrange.
+  rewrite (contract_sliced n st arr ebase l r WF FT Hinv idx Hidx Hrange).
+  destruct Hinv as (Hwf & Hof & Hnd & Hm & Hfl). unfold flags_ok in Hfl. rewrite Forall_forall in Hfl.
+  set (sl := ss_sliced st) in *. set (e := epairs (full_pairs (output n) st idx) ebase).
+  change (Einsum.einsum_spec n (slr_of sl) arr) with (ER n arr (removed (slr_of sl))).
+  rewrite (sum_keys_ER n arr (inns sl) (removed (slr_of sl)) e).
+  - rewrite einsum_spec_ER. unfold ER. f_equal. unfold innerR. apply filter_ext_in. intros j Hj.
+    destruct (memb j (output n)) eqn:Eo; [rewrite !andb_false_r; reflexivity|]. rewrite !andb_true_r. f_equal.
+    apply memb_false in Eo. apply memb_iff. rewrite !removed_slr. unfold drop. rewrite filter_In, negb_true_iff, memb_false. split.
+    + intros [Hin Hnn]. apply in_map_iff in Hin. destruct Hin as (s & Es & Hs). apply in_map_iff. exists s. split; [exact Es|].
+      unfold proj_only. apply filter_In. split; [exact Hs|]. destruct (si_proj s) eqn:Ep; [reflexivity|].
+      exfalso. apply Hnn. unfold nonproj_inds. apply in_map_iff. exists s. split; [exact Es|]. apply filter_In. split; [|rewrite Ep; reflexivity].
+      unfold inns. apply filter_In. split; [exact Hs|]. rewrite (Hfl s Hs), Es. apply negb_true_iff, memb_false, Eo.
+    + intros Hin. apply in_map_iff in Hin. destruct Hin as (s & Es & Hs). unfold proj_only in Hs. apply filter_In in Hs. destruct Hs as [Hs Hp].
+      split; [rewrite <- Es; apply in_map, Hs|]. intros H'. unfold nonproj_inds in H'. apply in_map_iff in H'. destruct H' as (s' & Es' & Hs').
+      apply filter_In in Hs'. destruct Hs' as [Hs' Hp']. unfold inns in Hs'. apply filter_In in Hs'. destruct Hs' as [Hs' _].
+      assert (s' = s) by (apply (NoDup_map_inj_in' si_ind sl s' s Hnd Hs' Hs); congruence). subst s'.
+      destruct (si_proj s); discriminate.
+  - apply NoDup_map_filter, Hnd.
+  - intros s Hs. pose proof Hs as Hs0. unfold inns in Hs. apply filter_In in Hs. destruct Hs as [Hs Hi]. split; [|split].
+    + rewrite (Hfl s Hs) in Hi. apply negb_true_iff, memb_false in Hi. exact Hi.
+    + rewrite removed_slr. apply in_map, Hs.
+    + intros Hp. apply (Hnp s Hs0 Hp).
+Qed.
